@@ -96,6 +96,34 @@ FIRST = {  # why the first run of the property's quick check missed the change (
     "C18-r5-1": "every source file had a one-dot name; `report.v2.ms` and friends now go through the pipeline (with a stale neighbour `report.mmm` in place)",
     "C18-r5-2": "the pipeline always ran in a fresh directory: the output never replaced an older, longer file (now: version histories long-short, short-long, long-mid-short in one directory)",
     "C20-r5-2": "file names were str: names that are not valid UTF-8 (Latin-1 `caf\\xe9.mmm`) could not even be written down by the generator (now: a byte-level stream outside the model)",
+    # round 6 (seeders told to look for what a tester holds constant; evaluated with VERIF_SEED=1)
+    "C01-r6-1": "an index never went below zero at run time in any program (now: boundary_value_programs: counting down, computed, in a function, negative two, writes)",
+    "C01-r6-2": "integers were compared with integers only; a literal beyond 32 bits (a bigint) on the other side of < <= > >= == != never occurred",
+    "C02-r6-2": "str element assignment was tried on a local str only, never on a str of an enclosing scope (captured: another type wrapper)",
+    "C03-r6-1": "the unknown name injected into an initializer was always a fresh identifier, never the name being declared",
+    "C03-r6-2": "wrong-typed initializers were variables and literals; a CONSTANT EXPRESSION, whose kind the compiler's folder decides with a table of its own, was never declared with another kind (now: all 375 operator x kind x kind x declared-kind mismatches, and the 125 matching twins)",
+    "C06-r6-1": "every tree was all literals or all variables: a literal sub-expression NEXT TO a non-constant operand (on either side, in a branch never taken) was never built (now: 13 contexts x 9 failing / 5 harmless literals)",
+    "C07-r6-1": "owner writes after capture were tried on function- and module-level variables; a variable LOCAL TO A BLOCK captured there and re-assigned in that block was not",
+    "C07-r6-2": "fields were reached through self / the object only, never by their bare name from methods and closures made in methods next to obj.field writes",
+    "C09-r6-1": "single-file programs: the interpreter was never made to stray from well-formed code by state shared BETWEEN files (now: every executed step is checked to be an edge of the dumped code - 16 million steps in the quick tier - and two-file programs whose same-named functions jump at equal indexes with different offsets run in both orders)",
+    "C11-r6-1": "no two modules shared a FILE NAME in different directories",
+    "C17-r6-1": "the asserted value was always a bool; nil in a bool slot (missing key of a map of bools) never reached an assert",
+    "C17-r6-2": "failures happened in functions called after the imports had completed, never in a module's own top-level code while it is being imported (now: 4 failures x 3 places x 4 ways of importing; kind, position and trace stated exactly)",
+    "C18-r6-1": "the pipeline's programs recurse a few levels at most: `run` and `execute` were never given a recursion that only fits one of two different stack sizes (now: depth 30 and 45)",
+    "C04-r6-1": "literals were short or ASCII: no multi-byte character ever sat at an exact byte offset of a long literal (the difference is in a log argument that only `run` evaluates; dumps are identical) (now: literal_boundary_programs, 81)",
+    "C04-r6-2": "every program was tiny: no record of the bytecode file came near 64 KiB (now: size_programs, 80: literals of 1000 bytes to 1 MiB, long tables, many functions, long names)",
+    "C05-r6-1": "operators were applied as `a op b` on variables and literals only, never as a compound assignment through an element / field / map slot (now: compound_cases, 1030 per build)",
+    "C11-r6-2": "an imported name was only read, called or pushed to, never given another value by the importer (now: rebind_cases, 11 export kinds x actions x places x import forms, seen by the module itself and by two other importers)",
+    "C12-r6-1": "`or` and `get` were always written with parentheses or stood alone (now: precedence_cases, 370 programs next to every binary operator class)",
+    "C12-r6-2": "same gap as C12-r6-1",
+    "C14-r6-1": "no constant string EXPRESSION was ever indexed with a constant index (now: const_string_cases, 300)",
+    "C14-r6-2": "str `+=` / `*=` only ever targeted plain variables (now: str_compound_cases, 125, five target forms)",
+    "C15-r6-1": "literals built from an element / field / map read had at least two elements (now: view_literal_cases, 656: seven wrappers incl. `[e]`, `[[e]]`, a one-pair map)",
+    "C16-r6-1": "generated programs almost never type-check completely, so code generation behind a `type` alias was never reached (now: alias_index_suspects, 3168 one-statement programs)",
+    "C19-r6-1": "the probe library was always named by an absolute path and a missing library was missing everywhere: nothing same-named lay where a well-meaning lookup would find it (now: decoy_scenarios, 29)",
+    "C19-r6-2": "same gap as C19-r6-1 (decoy next to the bytecode file, executed from another directory)",
+    "C20-r6-1": "the snapshot compared names and contents; a hard link of a read-only file (whose other name changes MODE when the flag is cleared before unlinking) was never in a tree",
+    "C20-r6-2": "directory names never contained a backslash (a legal name character) next to a directory spelled with `/`",
     "C20-r3-2": "caught at first run, but only as a model/implementation difference on `..mmm` (a name the property's list leaves open); hidden names with a real extension (`.cache.mmm`) now give the concrete failing tree",
 }
 
